@@ -84,6 +84,11 @@ def timestamp_to_sf_struct(ts: pa.Array | pa.ChunkedArray) -> pa.Array:
     # Calculate fractional part as nanoseconds
     fraction = pc.multiply(pc.subsecond(ts), 1_000_000_000).cast(pa.int32())  # type: ignore
 
+    # a null timestamp is a null struct (with any value in its non-nullable fields)
+    nulls = ts.is_null()
+    epoch = epoch.fill_null(0)
+    fraction = fraction.fill_null(0)
+
     if ts.type.tz:
         assert ts.type.tz == "UTC", f"Timezone {ts.type.tz} not yet supported"
         timezone = pa.array([1440] * len(ts), type=pa.int32())
@@ -95,6 +100,7 @@ def timestamp_to_sf_struct(ts: pa.Array | pa.ChunkedArray) -> pa.Array:
                 pa.field("fraction", nullable=False, type=pa.int32()),
                 pa.field("timezone", nullable=False, type=pa.int32()),
             ],
+            mask=nulls,
         )
     else:
         return pa.StructArray.from_arrays(
@@ -103,4 +109,5 @@ def timestamp_to_sf_struct(ts: pa.Array | pa.ChunkedArray) -> pa.Array:
                 pa.field("epoch", nullable=False, type=pa.int64()),
                 pa.field("fraction", nullable=False, type=pa.int32()),
             ],
+            mask=nulls,
         )
